@@ -44,17 +44,30 @@ func (w *chunkWriter) Write(p []byte) (int, error) {
 }
 
 func bedItems(r io.Reader, limit int) Val {
-	items := Val{K: 'l'}
+	// retain every yielded record until the iteration is over, then encode
+	type pair struct {
+		b   *bed.BED
+		err error
+	}
+	var got []pair
+	capHit := false
 	for b, err := range bed.Reader(r) {
-		if err != nil {
-			items.L = append(items.L, vErr)
-		} else {
-			items.L = append(items.L, vOk(bedVal(b)))
-		}
-		if len(items.L) > limit {
-			items.L = append(items.L, L(I(3), S("item cap hit")))
+		got = append(got, pair{b, err})
+		if len(got) > limit {
+			capHit = true
 			break
 		}
+	}
+	items := Val{K: 'l'}
+	for _, g := range got {
+		if g.err != nil {
+			items.L = append(items.L, vErr)
+		} else {
+			items.L = append(items.L, vOk(bedVal(g.b)))
+		}
+	}
+	if capHit {
+		items.L = append(items.L, L(I(3), S("item cap hit")))
 	}
 	return items
 }
@@ -201,6 +214,11 @@ var kBedWrite = register(&Kind{Name: "bed_write",
 		w := &chunkWriter{}
 		err := b.Write(w)
 		mt, merr := b.MarshalText()
+		if merr == nil && !marshalKeeps(mt, func() {
+			(&bed.BED{N: 6, Chrom: "another-record", ChromStart: 123456, ChromEnd: 654321, Name: strings.Repeat("T", 200), Strand: "+"}).MarshalText()
+		}) {
+			return vMarshalAliased
+		}
 		if err != nil {
 			if len(w.chunks) > 0 {
 				return L(I(3), S("Write returned an error after emitting bytes"))
@@ -582,6 +600,15 @@ func init() {
 			b.Name = string(c.RandBytes(ln, []byte("abcXYZ\"#,;' ")))
 			small := c.bedRecord(n)
 			c.Run(kBedFile, L(bedVal(small), bedVal(b), bedVal(small)), true, "file/long-line", fmt.Sprintf("file/long-line-%d", ln))
+		}
+		{
+			k := *kBedFile
+			k.NoModel = true
+			for _, ln := range []int{1 << 20, 1<<20 + 1, c.Pick(2<<20+3, 9<<20+1)} {
+				b := c.bedRecord(4)
+				b.Name = string(c.RandBytes(ln, []byte("abcXYZ ")))
+				c.Run(&k, L(bedVal(c.bedRecord(4)), bedVal(b), bedVal(c.bedRecord(4))), true, "file/very-long-line-impl-only")
+			}
 		}
 		for _, blocks := range []int{300, 450, 1200, 9000} {
 			b := c.bedRecord(12)
